@@ -668,6 +668,72 @@ let compile_path (idx : int) (line : string) : string =
     idx (int_of_n (vnum v)) n n (Hashtbl.find h "rate") (Hashtbl.find h "unsafe") (Hashtbl.find h "ext") (Hashtbl.find h "buf")
     (Hashtbl.find h "muts") (if src = "" then "-" else src)
 
+
+(* ---------- S7: the aliasing-level model against Rc identities and the counting allocator ---------- *)
+let canon_roots (roots : int list) : int list =
+  let tbl = Hashtbl.create 16 in
+  List.map (fun r -> match Hashtbl.find_opt tbl r with Some i -> i | None -> let i = Hashtbl.length tbl in Hashtbl.add tbl r i; i) roots
+
+let s7_case (c : case) : unit =
+  let h = kv c.spec in
+  let cfg = config_of h in
+  let v = cfg.c_version in
+  let hp = ref (heap_init v) in
+  let ok = ref true and step = ref 0 and live = ref None in
+  let diff what detail = if !ok then Printf.printf "DIFF %s step=%d s7-%s %s\n" c.id !step what detail; ok := false in
+  let cells_arr () = Array.of_list !hp.cells in
+  let kids_of = function
+    | HLeaf _ -> [] | HSeq (_, items) -> List.map int_of_nat items
+    | HDict pairs -> List.concat_map (fun (k, x) -> [int_of_nat k; int_of_nat x]) pairs
+    | HInst (a, b) -> [int_of_nat a; int_of_nat b] | HCall i -> [int_of_nat i] in
+  List.iter (fun l ->
+    match words l with
+    | ["STEP"; ph; _; chosen; orig; _; _; _; _; _] ->
+        incr step;
+        let tok = if ph = "B" then lex_exact (bytes_of_hex orig) else Some (op_of_rust chosen, A0) in
+        (match tok with
+         | Some t -> hp := heap_step v !hp t
+         | None -> if orig <> "-" then diff "lex" ("cannot decode " ^ orig))
+    | ["ALIAS"; stk; memo; edges] ->
+        (* implementation: Rc identities of the roots numbered by first appearance (stack bottom to top, memo by key) *)
+        let ints s = if s = "-" then [] else List.map int_of_string (String.split_on_char ',' s) in
+        let impl_roots = ints stk @ (if memo = "-" then [] else List.map (fun e -> int_of_string (List.nth (String.split_on_char ':' e) 1)) (String.split_on_char ',' memo)) in
+        let m_memo = List.sort (fun (a, _) (b, _) -> compare (int_of_n a) (int_of_n b)) !hp.hmemo in
+        let model_roots = canon_roots (List.rev_map int_of_nat !hp.hstk @ List.map (fun (_, i) -> int_of_nat i) m_memo) in
+        if impl_roots <> model_roots then
+          diff "aliasing" (Printf.sprintf "roots impl=%s model=%s" (String.concat "," (List.map string_of_int impl_roots)) (String.concat "," (List.map string_of_int model_roots)))
+        else begin
+          (* reachable cells and distinct edges are invariant under renaming *)
+          let arr = cells_arr () in
+          let seen = Hashtbl.create 64 and edges_m = Hashtbl.create 64 in
+          let rec visit i = if not (Hashtbl.mem seen i) then begin
+              Hashtbl.add seen i ();
+              List.iter (fun k -> Hashtbl.replace edges_m (i, k) (); visit k) (kids_of arr.(i)) end in
+          List.iter visit (List.rev_map int_of_nat !hp.hstk @ List.map (fun (_, i) -> int_of_nat i) m_memo);
+          let impl_edges = if edges = "-" then [] else String.split_on_char ',' edges in
+          let impl_nodes = Hashtbl.create 64 in
+          List.iter (fun r -> Hashtbl.replace impl_nodes r ()) impl_roots;
+          List.iter (fun e -> match String.split_on_char '>' e with
+            | [a; b] -> Hashtbl.replace impl_nodes (int_of_string a) (); Hashtbl.replace impl_nodes (int_of_string b) ()
+            | _ -> ()) impl_edges;
+          if Hashtbl.length impl_nodes <> Hashtbl.length seen || List.length impl_edges <> Hashtbl.length edges_m then
+            diff "graph" (Printf.sprintf "reachable cells/edges impl=%d/%d model=%d/%d" (Hashtbl.length impl_nodes) (List.length impl_edges)
+                            (Hashtbl.length seen) (Hashtbl.length edges_m))
+        end
+    | ["LIVE"; b; a] -> live := Some (int_of_string b, int_of_string a)
+    | _ -> ()) c.lines;
+  let cyc = has_cycle !hp.cells in
+  (match !live with
+   | Some (b, a) ->
+       let leaked = a - b in
+       if leaked <> 0 && cyc then
+         Printf.printf "PROP %s C14 fail leak of %d bytes after reset and drop: reference cycle (a container inserted into itself - known class)\n" c.id leaked
+       else if leaked <> 0 then
+         Printf.printf "PROP %s C14 fail leak of %d bytes after reset and drop although the cell graph of the aliasing model is acyclic\n" c.id leaked
+       else if cyc then diff "leak-prediction" "the model's cell graph has a cycle but no byte stayed allocated"
+   | None -> diff "live" "no LIVE line");
+  if !ok then Printf.printf "OK7 %s cells=%d cycle=%b\n" c.id (List.length !hp.cells) cyc
+
 let () =
   match Array.to_list Sys.argv with
   | [_; "s1"; path] ->
@@ -743,6 +809,10 @@ let () =
       List.iter (fun c ->
         (try s3_case c
          with e -> Printf.printf "DIFF %s step=0 s3-driver-exception %s\n" c.id (Printexc.to_string e))) (read_cases path)
+  | [_; "s7"; path] ->
+      List.iter (fun c ->
+        (try s7_case c
+         with e -> Printf.printf "DIFF %s step=0 s7-driver-exception %s\n" c.id (Printexc.to_string e))) (read_cases path)
   | [_; "s5"; path] ->
       List.iter (fun c ->
         (try s5_case c
